@@ -791,7 +791,11 @@ impl Server {
             let response = if let Some(sync_resp) = sync_response {
                 sync_resp
             } else {
-                self.process_frame(frame, id)?
+                // A command that fails is answered with an error reply; the connection stays usable
+                match self.process_frame(frame, id) {
+                    Ok(resp) => resp,
+                    Err(e) => RespFrame::error(e.to_string()),
+                }
             };
             responses.push(response);
         }
